@@ -274,3 +274,193 @@ def same_stmt(node: ast.AST | None, *accepted_srcs: str) -> bool:
         if ast.dump(ast.parse(src).body[0]) == d:
             return True
     return False
+
+
+# ====================================================================== robustness toolkit
+# (added after the first run against behaviour-preserving refactorings written by sub-agents: 31 of 34 raised an alarm)
+
+_NP_METHODS = {"all", "any", "sum", "max", "min", "prod", "argmax", "argmin", "cumsum", "ravel", "astype", "copy", "mean"}
+
+
+class _Idioms(ast.NodeTransformer):
+    """canonical spelling of equivalent idioms:
+    np.f(x, **kw) -> x.f(**kw) for reductions; dict()/list()/tuple() -> literals; x.shape[0] -> len(x);
+    `not a in b` -> `a not in b`, `not a is b` -> `a is not b`; int/float literal forms; +x -> x; (a) parentheses vanish anyway"""
+
+    def visit_Call(self, n: ast.Call):
+        self.generic_visit(n)
+        d = dotted_of(n.func)
+        if d and d.split(".")[0] in ("np", "numpy") and d.split(".")[-1] in _NP_METHODS and len(d.split(".")) == 2 and n.args \
+                and not isinstance(n.args[0], ast.Starred):
+            recv = n.args[0]
+            rest = n.args[1:]
+            kws = list(n.keywords)
+            meth = d.split(".")[-1]
+            if meth in ("all", "any", "sum", "max", "min", "prod", "argmax", "argmin", "cumsum", "mean") and len(rest) == 1 and not any(k.arg == "axis" for k in kws):
+                kws = [ast.keyword(arg="axis", value=rest[0]), *kws]
+                rest = []
+            if not rest or meth == "astype":
+                return ast.Call(func=ast.Attribute(value=recv, attr=meth, ctx=ast.Load()), args=list(rest), keywords=kws)
+        if d in ("dict", "list", "tuple", "set") and not n.args and not n.keywords and d != "set":
+            return {"dict": ast.Dict(keys=[], values=[]), "list": ast.List(elts=[], ctx=ast.Load()), "tuple": ast.Tuple(elts=[], ctx=ast.Load())}[d]
+        if d == "dict" and not n.args and n.keywords and all(k.arg for k in n.keywords):
+            return ast.Dict(keys=[ast.Constant(k.arg) for k in n.keywords], values=[k.value for k in n.keywords])
+        return n
+
+    def visit_Subscript(self, n: ast.Subscript):
+        self.generic_visit(n)
+        if isinstance(n.value, ast.Attribute) and n.value.attr == "shape" and isinstance(n.slice, ast.Constant) and n.slice.value == 0 and isinstance(n.ctx, ast.Load):
+            return ast.Call(func=ast.Name(id="len", ctx=ast.Load()), args=[n.value.value], keywords=[])
+        return n
+
+    def visit_UnaryOp(self, n: ast.UnaryOp):
+        self.generic_visit(n)
+        if isinstance(n.op, ast.Not) and isinstance(n.operand, ast.Compare) and len(n.operand.ops) == 1:
+            flip = {ast.In: ast.NotIn, ast.NotIn: ast.In, ast.Is: ast.IsNot, ast.IsNot: ast.Is, ast.Eq: ast.NotEq, ast.NotEq: ast.Eq,
+                    ast.Lt: ast.GtE, ast.GtE: ast.Lt, ast.Gt: ast.LtE, ast.LtE: ast.Gt}
+            t = type(n.operand.ops[0])
+            if t in flip:
+                return ast.Compare(left=n.operand.left, ops=[flip[t]()], comparators=n.operand.comparators)
+        if isinstance(n.op, ast.UAdd):
+            return n.operand
+        return n
+
+    def visit_Compare(self, n: ast.Compare):
+        self.generic_visit(n)
+        # a > b  ->  b < a ;  a >= b -> b <= a   (one direction only)
+        if len(n.ops) == 1 and isinstance(n.ops[0], (ast.Gt, ast.GtE)):
+            return ast.Compare(left=n.comparators[0], ops=[ast.Lt() if isinstance(n.ops[0], ast.Gt) else ast.LtE()], comparators=[n.left])
+        return n
+
+    def visit_BinOp(self, n: ast.BinOp):
+        self.generic_visit(n)
+        # canonical order of commutative integer arithmetic: constant factor first (k * x), constants last in sums
+        if isinstance(n.op, ast.Mult) and isinstance(n.right, ast.Constant) and not isinstance(n.left, ast.Constant) and isinstance(n.right.value, (int, float)):
+            return ast.BinOp(left=n.right, op=ast.Mult(), right=n.left)
+        if isinstance(n.op, ast.Add) and isinstance(n.left, ast.Constant) and not isinstance(n.right, ast.Constant) and isinstance(n.left.value, (int, float)):
+            return ast.BinOp(left=n.right, op=ast.Add(), right=n.left)
+        return n
+
+
+def canon(node: ast.AST) -> ast.AST:
+    "idiom-canonical deep copy of an AST"
+    return ast.fix_missing_locations(_Idioms().visit(_copy.deepcopy(node)))
+
+
+def _alpha(node: ast.AST) -> ast.AST:
+    "rename variables bound by comprehensions / lambdas to positional names (structural equality modulo bound names)"
+    node = _copy.deepcopy(node)
+    counter = [0]
+
+    def rename_in(sub: ast.AST, mapping: dict):
+        for x in ast.walk(sub):
+            if isinstance(x, ast.Name) and x.id in mapping:
+                x.id = mapping[x.id]
+            if isinstance(x, ast.arg) and x.arg in mapping:
+                x.arg = mapping[x.arg]
+
+    for x in list(ast.walk(node)):
+        if isinstance(x, (ast.ListComp, ast.SetComp, ast.GeneratorExp, ast.DictComp)):
+            mapping = {}
+            for g in x.generators:
+                for t in ast.walk(g.target):
+                    if isinstance(t, ast.Name) and t.id not in mapping:
+                        mapping[t.id] = f"_b{counter[0]}"
+                        counter[0] += 1
+            rename_in(x, mapping)
+        elif isinstance(x, ast.Lambda):
+            mapping = {}
+            for a in [*x.args.posonlyargs, *x.args.args, *x.args.kwonlyargs]:
+                mapping[a.arg] = f"_b{counter[0]}"
+                counter[0] += 1
+            rename_in(x, mapping)
+    return node
+
+
+def norm_dump(node: ast.AST) -> str:
+    return ast.dump(_alpha(canon(node)))
+
+
+def expand_locals(expr: ast.AST, fn: ast.AST, keep: Iterable[str] = (), depth: int = 0) -> ast.AST:
+    """copy propagation: substitute every local that has exactly one definition in `fn` (and is not a parameter, loop variable
+    or augmented) by its defining expression, recursively.  `keep` names are left alone."""
+    if depth > 6:
+        return expr
+    keep = set(keep)
+    params = set()
+    if isinstance(fn, (ast.FunctionDef, ast.AsyncFunctionDef, ast.Lambda)):
+        a = fn.args
+        params = {x.arg for x in [*a.posonlyargs, *a.args, *a.kwonlyargs]} | ({a.vararg.arg} if a.vararg else set()) | ({a.kwarg.arg} if a.kwarg else set())
+    bound_elsewhere = set()
+    for n in N.walk_no_nested_defs(fn):
+        if isinstance(n, (ast.For, ast.comprehension)):
+            for t in ast.walk(n.target):
+                if isinstance(t, ast.Name):
+                    bound_elsewhere.add(t.id)
+        if isinstance(n, ast.AugAssign) and isinstance(n.target, ast.Name):
+            bound_elsewhere.add(n.target.id)
+        if isinstance(n, (ast.With,)):
+            for it in n.items:
+                if it.optional_vars is not None:
+                    for t in ast.walk(it.optional_vars):
+                        if isinstance(t, ast.Name):
+                            bound_elsewhere.add(t.id)
+
+    class T(ast.NodeTransformer):
+        def visit_Name(self, n: ast.Name):
+            if isinstance(n.ctx, ast.Load) and n.id not in keep and n.id not in params and n.id not in bound_elsewhere:
+                defs = assignments_to(fn, n.id)
+                if len(defs) == 1 and not any(isinstance(x, ast.Name) and x.id == n.id for x in ast.walk(defs[0])):
+                    return expand_locals(_copy.deepcopy(defs[0]), fn, keep, depth + 1)
+            return n
+
+    return ast.fix_missing_locations(T().visit(_copy.deepcopy(expr)))
+
+
+def same_expr_x(node: ast.AST | None, fn: ast.AST | None, *accepted_srcs: str, keep: Iterable[str] = ()) -> bool:
+    """robust structural equality: idiom-canonical, modulo comprehension/lambda variable names, and (when `fn` is given) after
+    copy propagation of single-definition locals on the found side"""
+    if node is None:
+        return False
+    cands = [node]
+    if fn is not None:
+        cands.append(expand_locals(node, fn, keep))
+    dumps = {norm_dump(c) for c in cands}
+    for src in accepted_srcs:
+        if norm_dump(ast.parse(src, mode="eval").body) in dumps:
+            return True
+    return False
+
+
+class _MatchToIf(ast.NodeTransformer):
+    "match subj: case V: ... case _: ...  ->  if subj == V: ... elif ...: else: ...   (value / wildcard / or-patterns of values only)"
+
+    def visit_Match(self, n: ast.Match):
+        self.generic_visit(n)
+        chain: list[tuple[ast.expr | None, list[ast.stmt]]] = []
+        for c in n.cases:
+            if c.guard is not None:
+                return n
+            p = c.pattern
+            if isinstance(p, ast.MatchValue):
+                test = ast.Compare(left=n.subject, ops=[ast.Eq()], comparators=[p.value])
+            elif isinstance(p, ast.MatchSingleton):
+                test = ast.Compare(left=n.subject, ops=[ast.Is()], comparators=[ast.Constant(p.value)])
+            elif isinstance(p, ast.MatchOr) and all(isinstance(q, ast.MatchValue) for q in p.patterns):
+                test = ast.Compare(left=n.subject, ops=[ast.In()], comparators=[ast.Tuple(elts=[q.value for q in p.patterns], ctx=ast.Load())])
+            elif isinstance(p, ast.MatchAs) and p.pattern is None:
+                test = None
+            else:
+                return n
+            chain.append((test, c.body))
+        out: list[ast.stmt] = []
+        for test, body in reversed(chain):
+            if test is None:
+                out = list(body)
+            else:
+                out = [ast.If(test=test, body=list(body), orelse=out)]
+        return out if out else n
+
+
+def match_to_if(fn: ast.AST) -> ast.AST:
+    return ast.fix_missing_locations(_MatchToIf().visit(_copy.deepcopy(fn)))
